@@ -15,6 +15,7 @@ import (
 	"sort"
 	"strings"
 	"sync"
+	"sync/atomic"
 	"testing/fstest"
 
 	"github.com/tetratelabs/wazero"
@@ -341,6 +342,8 @@ type env struct {
 	ctx      context.Context
 	rt       wazero.Runtime
 	compiled wazero.CompiledModule
+	named    wazero.CompiledModule // the same empty module with a name section: module name "alpha"
+	ninst    atomic.Int32
 }
 
 func pickS(r *c.Rng, pool []string) string { return pool[r.Intn(len(pool))] }
@@ -355,7 +358,15 @@ func (e *env) instantiate(n *node, sc sock.Config) [][]int64 {
 	if sc != nil {
 		ctx = sock.WithConfig(ctx, sc)
 	}
-	mod, err := e.rt.InstantiateModule(ctx, e.compiled, n.m)
+	// the binary alternates between one whose name section names the module and one without a name section: a name
+	// taken from the binary must not stick to the configuration (the dumps of all nodes are compared after every operation)
+	cm := e.compiled
+	if e.named != nil {
+		if e.ninst.Add(1)%2 == 1 {
+			cm = e.named
+		}
+	}
+	mod, err := e.rt.InstantiateModule(ctx, cm, n.m)
 	if err != nil || mod == nil {
 		if mod != nil {
 			mod.Close(e.ctx)
@@ -933,7 +944,11 @@ func main() {
 	if err != nil {
 		panic(err)
 	}
-	e := &env{ctx: ctx, rt: rt, compiled: compiled}
+	named, err := rt.CompileModule(ctx, (&c.Mod{Custom: [][]byte{c.Cat(c.Name("name"), c.B(0), c.U32(6), c.Name("alpha"))}}).Bytes())
+	if err != nil {
+		panic(err)
+	}
+	e := &env{ctx: ctx, rt: rt, compiled: compiled, named: named}
 	for i, sc := range fixedScenarios() {
 		out.Emit(runTree(e, rng, len(sc), i%2 == 0, sc))
 	}
